@@ -53,7 +53,8 @@ BAD_OPTIONS = {'ds9': [{'precision': 'x'}, {'precision': -3}, {'nonsense': 1}],
                # FITS verification - the write fails LATE, inside writeto
                'fits': [{'header': 'not-a-header'}, {'nonsense': 1},
                         {'header': '@unverifiable'}]}
-DEST = ['absent', 'file', 'symlink', 'dangling']
+# ('empty': an existing regular file of 0 bytes - it exists)
+DEST = ['absent', 'file', 'symlink', 'dangling', 'empty']
 
 
 def _scratch():
@@ -166,6 +167,8 @@ class Matrix(Relation):
         if dest == 'file':
             with open(path, 'wb') as fh:
                 fh.write(SENTINEL)
+        elif dest == 'empty':
+            open(path, 'wb').close()
         elif dest == 'symlink':
             with open(target, 'wb') as fh:
                 fh.write(SENTINEL)
